@@ -1365,6 +1365,17 @@ class QueryBuilder(Selectable, Term):  # type:ignore[misc]
                 return False
         return True
 
+    def _references_foreign_table(self) -> bool:
+        """
+        Whether WHERE / PREWHERE mention a table that is not (or not yet) one of the statement's
+        own sources.  Evaluated against the current sources, so the answer does not depend on
+        whether where() was called before or after from_() / update().
+        """
+        return any(
+            criterion is not None and not self._validate_table(criterion)  # type:ignore[arg-type]
+            for criterion in (self._wheres, self._prewheres)
+        )
+
     def _tag_subquery(self, subquery: Self) -> None:
         subquery.alias = "sq%d" % self._subquery_count
         self._subquery_count += 1
@@ -1414,7 +1425,7 @@ class QueryBuilder(Selectable, Term):  # type:ignore[misc]
         has_joins = bool(self._joins)
         has_multiple_from_clauses = 1 < len(self._from)
         has_subquery_from_clause = 0 < len(self._from) and isinstance(self._from[0], QueryBuilder)
-        has_reference_to_foreign_table = self._foreign_table
+        has_reference_to_foreign_table = self._references_foreign_table()
         has_update_from = self._update_table and self._from
 
         ctx = ctx.copy(
